@@ -178,6 +178,20 @@ ReplaceRuleP(v, w, offered) ==
   \A g \in CovSet(v) \cap CovSet(w) :
      w.cov[g] # v.cov[g] => w.cov[g] \in ChainSet(g, {v.cov[g]}, sols)
 
+\* the same clause on the individual assignments archive[g] := s made during one call
+\* (steps = sequence of [g, sol], in the order the archive made them)
+RECURSIVE StepsOK(_, _)
+StepsOK(cov, steps) ==
+  IF steps = <<>> THEN TRUE
+  ELSE LET g == Head(steps).g
+           s == Head(steps).sol
+       IN /\ ((cov[g].id # 0 /\ cov[g] # s) => (g \in s.covers /\ Rule(cov[g], s)))
+          /\ StepsOK([cov EXCEPT ![g] = s], Tail(steps))
+RECURSIVE StepsFinal(_, _)
+StepsFinal(cov, steps) ==
+  IF steps = <<>> THEN cov
+  ELSE StepsFinal([cov EXCEPT ![Head(steps).g] = Head(steps).sol], Tail(steps))
+
 \* MIO populations never exceed their capacity
 MIOCapP(v) == \A g \in DOMAIN v.pops : Len(v.pops[g].sols) <= v.pops[g].cap
 \* a covered target keeps exactly one solution ... and stays covered
